@@ -103,6 +103,19 @@ Variable zero : T.
 Notation heap := (heap T).
 Notation cst := (cst T).
 
+(* the statement order of the Go source, read back: every closed form below is proved for this
+   order only, so a reordered source breaks these lemmas *)
+Lemma g_inv_body : inv_body T = [inv_next T; inv_self T; inv_adv T].
+Proof. reflexivity. Qed.
+Lemma g_rm_body : rm_body T = [rm_val T; rm_next T; rm_self T; rm_new T].
+Proof. reflexivity. Qed.
+Lemma g_tr_body : forall n, tr_body T n = [tr_inval T n; tr_nil T].
+Proof. reflexivity. Qed.
+Lemma g_cl_body : cl_body T = [cl_inval T; cl_nil T].
+Proof. reflexivity. Qed.
+Lemma g_pop_body : pop_body T zero = [pop_remove T zero; pop_size T; pop_reset T].
+Proof. reflexivity. Qed.
+
 (* total accessors *)
 Definition lnk (h : heap) (a : nat) : link := match nth_error h a with Some c => snd c | None => Nil end.
 Definition vl (h : heap) (a : nat) : T := match nth_error h a with Some c => fst c | None => zero end.
@@ -221,15 +234,20 @@ Proof. intros. cbn [cur_add]. replace (called add_ncalls_push) with true by refl
 Lemma stale_remove : cur_remove T zero (h, a) = Panic InvalidCursor (h, a).
 Proof. unfold cur_remove. rewrite stale_at_end. reflexivity. Qed.
 Lemma stale_truncate : cur_truncate T (h, a) = Panic InvalidCursor (h, a).
-Proof. unfold cur_truncate, cur_truncate_gen. rewrite checked_eq by (assumption || reflexivity). rewrite selfb_stale. reflexivity. Qed.
+Proof.
+  unfold cur_truncate, cur_truncate_gen. rewrite g_tr_body. cbn [seq_env]. unfold tr_inval.
+  rewrite checked_eq by (assumption || reflexivity). rewrite selfb_stale. reflexivity.
+Qed.
 
 (* the code before the repair: Truncate spins on the self-link whatever the fuel (F7) *)
 Lemma invalidate_self_spins : forall fuel p, invalidate T fuel (Ptr a) (h, p) = OutOfFuel.
 Proof.
   induction fuel as [|f IH]; intros p; [reflexivity|].
-  cbn [invalidate]. rewrite g_invalidate_cond. cbn [is_nil negb deref bind].
+  cbn [invalidate]. rewrite g_invalidate_cond. cbn [is_nil negb]. rewrite g_inv_body.
+  cbn [seq_env]. unfold inv_next, inv_self, inv_adv. cbn [fst snd deref bind].
+  rewrite load_eq by assumption. cbn [bind fst snd deref].
   rewrite load_eq by assumption. cbn [bind fst snd].
-  rewrite store_eq by assumption. cbn [bind].
+  rewrite store_eq by assumption. cbn [bind fst snd].
   rewrite g_invalidate_newlink, g_invalidate_next, g_invalidate_adv, Hs.
   rewrite upd_same by (rewrite <- Hs; apply nth_error_cell; assumption).
   apply IH.
@@ -237,7 +255,8 @@ Qed.
 
 Lemma stale_truncate_pinned : cur_truncate_pinned T (h, a) = OutOfFuel.
 Proof.
-  unfold cur_truncate_pinned, cur_truncate_gen, checked. change (called 0) with false. cbn [snd bind].
+  unfold cur_truncate_pinned, cur_truncate_gen. rewrite g_tr_body. cbn [seq_env]. unfold tr_inval, checked.
+  change (called 0) with false. cbn [snd bind].
   rewrite load_eq by assumption. cbn [bind snd fst].
   replace (called truncate_ncalls_invalidate) with true by reflexivity.
   rewrite Hs, invalidate_self_spins. reflexivity.
